@@ -95,6 +95,17 @@ def flat(x):
     return str(x)
 
 
+TYPES = {"SYMM", "PAX", "AGF", "UI", "CONNECT", "DISC", "CC", "DM", "FRMR", "SNL", "DPS", "I", "RR", "RNR", "UNK", "type"}
+
+
+def innermost(det):
+    """a Diff path <<"AGF", "AGF", type, field, ..>> without the enclosing aggregates"""
+    det = list(det)
+    while len(det) > 2 and det[0] == "AGF" and det[1] in TYPES:
+        det = det[1:]
+    return det
+
+
 def canonical_key(v):
     """key of a rejection: the failing clause and the spec's own description of the difference / branch"""
     _, act, why, cls = v
@@ -103,10 +114,7 @@ def canonical_key(v):
         name, det = why[1], why[2]
         if name == "OwnSlice":
             return "inv:OwnSlice:%s" % det[-1]                    # innermost reason, e.g. tlv-past-slice
-        det = list(det)
-        while len(det) > 1 and det[0] == "AGF" and det[1] != "count":
-            det = det[1:]                                          # the innermost differing PDU
-        return "inv:%s:%s" % (name, flat(det))
+        return "inv:%s:%s" % (name, flat(innermost(det)))
     def inner(br):
         """innermost part of a spec branch: drop the enclosing AGF / agf-member levels"""
         br = [str(x) for x in br]
@@ -122,9 +130,7 @@ def canonical_key(v):
     if kind == "result":
         det = list(why[2])
         if len(det) > 1:                                           # a field difference between two decoded PDUs
-            while len(det) > 1 and det[0] == "AGF" and det[1] != "count":
-                det = det[1:]
-            return "result:%s:%s" % (act, flat(det))
+            return "result:%s:%s" % (act, flat(innermost(det)))
         return "result:%s:nfcpy=%s:spec=%s" % (act, flat(det), inner(why[1]))
     return "stuck:" + flat(why)
 
